@@ -47,6 +47,7 @@ def describe(exe, scenfile):
 def finish_desc(d, touch="before"):
     d["held"] = held_bound(d)
     d["touch"] = touch
+    d.setdefault("spur", 0)
     return d
 
 
